@@ -1,7 +1,7 @@
 #!/bin/sh
 # usage: mkscratch.sh <scratch-dir>
 # Builds, from /repo's current working tree, an instrumented copy and the two worker
-# binaries (<dir>/worker-race, <dir>/worker) plus the site table <dir>/sites.json.
+# binaries (<dir>/bin/worker-race, <dir>/bin/worker) plus the site table <dir>/sites.json.
 set -e
 S="$1"
 V="$(cd "$(dirname "$0")" && pwd)"
@@ -24,5 +24,5 @@ replace github.com/coregx/coregex => $S/repo
 EOM
 cp /repo/go.sum "$S/worker/go.sum"
 cd "$S/worker"
-go build -tags verif -o "$S/worker" . 
-go build -race -tags verif -o "$S/worker-race" .
+mkdir -p "$S/bin"; go build -tags verif -o "$S/bin/worker" .
+go build -race -tags verif -o "$S/bin/worker-race" .
